@@ -108,6 +108,23 @@ class Run(object):
             raise Violation('C19.1', 'ffi.buffer(p, %d) has len %d' % (size, len(b)))
         self.views.append(dict(kind='buf', obj=b, s=si, off=off, n=size, ro=False, keeps=keeps))
 
+    def op_mkbuf_fb(self, k, r):
+        """ffi.buffer() over a from_buffer cdata: a view of the Python object's memory"""
+        v = self.pick_view(k, lambda v: v['kind'] == 'fb')
+        if v is None:
+            return
+        n = v['n']
+        if r % 2:
+            size = (r // 2) % (n + 1)
+            b = self.ffi.buffer(v['obj'], size)
+        else:
+            size = n
+            b = self.ffi.buffer(v['obj']) if v.get('isarray', True) else self.ffi.buffer(v['obj'], n)
+        if len(b) != size:
+            raise Violation('C19.1', 'ffi.buffer(from_buffer cdata, %d) has len %d' % (size, len(b)))
+        self.views.append(dict(kind='buf', obj=b, s=v['s'], off=v['off'], n=size, ro=False, keeps=True))
+        self.out.probe('buffer_over_from_buffer_cdata')
+
     def op_buf_read(self, k, how, a, b):
         v = self.pick_view(k, lambda v: v['kind'] == 'buf')
         if v is None:
@@ -231,7 +248,8 @@ class Run(object):
         if want is not None and len(cd) != want:
             raise Violation('C19.2', 'from_buffer(%r, <%d bytes>) has %d items, expected %d' % (T, nbytes, len(cd), want))
         n = (want if want is not None else items) * size
-        self.views.append(dict(kind='fb', obj=cd, s=si, off=0, n=n, elem=elem, items=n // size, ro=False))
+        self.views.append(dict(kind='fb', obj=cd, s=si, off=0, n=n, elem=elem, items=n // size, ro=False,
+                               isarray=(shape != 'ptr')))
         if nbytes % size:
             self.out.probe('partial_last_element_ignored')
 
@@ -386,6 +404,8 @@ class Run(object):
             self.op_store(op[1], op[2], op[3])
         elif n == 'mkbuf':
             self.op_mkbuf(op[1], op[2], op[3])
+        elif n == 'mkbuf_fb':
+            self.op_mkbuf_fb(op[1], op[2])
         elif n == 'bread':
             self.op_buf_read(op[1], op[2], op[3], op[4])
         elif n == 'bwrite':
@@ -468,13 +488,15 @@ class C19(core.Check):
         ops = [['store', rng.choice(['cdata', 'ba', 'arr']), rng.randint(0, 48), rng.below(1000)],
                ['store', 'cdata', rng.randint(1, 48), rng.below(1000)]]
         for _ in range(rng.randint(4, 50)):
-            n = rng.weighted([('store', 4), ('mkbuf', 10), ('bread', 16), ('bwrite', 16), ('frombuf', 8),
+            n = rng.weighted([('store', 4), ('mkbuf', 10), ('mkbuf_fb', 3), ('bread', 16), ('bwrite', 16), ('frombuf', 8),
                               ('badfrombuf', 2), ('fbrw', 10), ('pywrite', 4), ('memmove', 16), ('memmove_ro', 1),
                               ('orphan', 3), ('dropview', 3), ('collect', 1)])
             k = rng.below(1000)
             r = rng.below(10 ** 9)
             if n == 'store':
                 ops.append(['store', rng.choice(['cdata', 'ba', 'arr']), rng.randint(0, 48), r])
+            elif n == 'mkbuf_fb':
+                ops.append(['mkbuf_fb', k, r])
             elif n == 'mkbuf':
                 ops.append(['mkbuf', k, rng.weighted([('full', 5), ('partial', 4), ('zero', 1)]), r])
             elif n == 'bread':
